@@ -284,7 +284,8 @@ def duck_input(nv, nq, npm, positive_acoustic=True):
             if q == 0 and not positive_acoustic:
                 modes[:3] = [0.0, -0.1, 0.0]
             qps.append(models.QPointData((0.0, 0.0, 0.1 * q), modes))
-        vols.append(models.VolumeData(0.0, 900.0 - 40 * v, -1.0, qps))
+        # volume blocks in a generic (neither ascending nor descending) order: the per-mode routines that do not need monotone abscissae accept any listing
+        vols.append(models.VolumeData(0.0, 900.0 - 40 * ((3 * v + 1) % nv if nv % 3 else (2 * v + 1) % nv if nv % 2 else v), -1.0, qps))
     return models.QHAInputData(nv, nq, npm, 1, npm // 3, [((0, 0, 0.1 * q), 1.0) for q in range(nq)], vols)
 
 
@@ -321,8 +322,10 @@ def dispatch(mg):
                     want_kw = {"order": 3}
                     if fns[method] == "interpolate_mode_ppoly":
                         want_kw["method"] = method
-                    if name != fns[method] or kw != want_kw or not numpy.array_equal(mf, want_f) or va is not grid or \
-                            not numpy.array_equal(mv, numpy.array([vol.volume for vol in inp.volumes])):
+                    # the pairing (V_k, omega_k) of the file must arrive intact; the order in which the pairs are listed is not fixed by the property
+                    pairs_in = sorted(zip(numpy.asarray(mv, dtype=float).tolist(), numpy.asarray(mf, dtype=float).tolist()))
+                    pairs_want = sorted(zip([float(vol.volume) for vol in inp.volumes], want_f.tolist()))
+                    if name != fns[method] or kw != want_kw or pairs_in != pairs_want or va is not grid:
                         return core.refuted("finite", "%s: slot (q=%d, m=%d) is interpolated by %s%r from frequencies %s" % (method, q, m, name, kw, mf.tolist()),
                                             witness_id="dispatch-args:%s" % method, replay={"reproduced": True})
                 tagno = 0
